@@ -92,7 +92,7 @@ pub fn ops_harness(name: &str, prop: &'static str, cfg: Cfg, bounds: Bounds) -> 
             "max_ops": cfg.max_ops,
             "faults": cfg.faults, "errors": cfg.errors, "shorts": cfg.shorts,
             "allow_drop": cfg.allow_drop, "allow_fresh_waker": cfg.allow_fresh,
-            "cancel_may_lose": cfg.allow_cancel_lose,
+            "cancel_may_lose": cfg.allow_cancel_lose, "pool": format!("{}x{}", cfg.pool.0, cfg.pool.1), "pool_tail_shift": cfg.pool_shift, "held_object_letters": cfg.held_letters,
             "raw_cqes": cfg.raw_cqes.len(), "canary": cfg.canary, "zc_error_posts_notification": cfg.zc_error_notif,
             "depth": bounds.depth, "deviations": bounds.dev, "d_all": bounds.d_all, "merge": bounds.merge,
         }),
@@ -117,9 +117,11 @@ pub fn harnesses(prop: &str, tier: &str) -> Vec<Harness> {
         "C05" => c05(quick),
         "C06" => c06(quick),
         "C07" => c07(quick),
+        "C08" => c08(quick),
         "C09" => c09(quick),
         "C10" => c10(quick),
         "C11" => c11(quick),
+        "C12" => c12(quick),
         _ => Vec::new(),
     }
 }
@@ -326,6 +328,55 @@ fn c07(quick: bool) -> Vec<Harness> {
     v
 }
 
+fn c08(quick: bool) -> Vec<Harness> {
+    let mut v = Vec::new();
+    {
+        use crate::thworld::{C08Cfg, c08_threads};
+        let pb = if quick { 2 } else { 3 };
+        for (pool, releasers, shift, reader) in [
+            (2u16, 2usize, 0u16, false),
+            (4, 3, 0, false),
+            (2, 2, 0u16.wrapping_sub(3), false),
+            (4, 2, 0, true),
+            (4, 3, 0u16.wrapping_sub(5), true),
+        ] {
+            if quick && releasers == 3 && reader {
+                continue;
+            }
+            v.push(th_harness("C08", c08_threads(C08Cfg { pool, buf_size: 8, releasers, shift, reader }, pb)));
+        }
+    }
+    let d = |q: usize, t: usize| if quick { q } else { t };
+    use Kind::*;
+    for (psize, bsize) in [(1u16, 8u32), (2, 1), (2, 8), (4, 8)] {
+        for shift in [0u16, 0u16.wrapping_sub(2 * psize), 0u16.wrapping_sub(psize)] {
+            if quick && psize == 4 && shift != 0 {
+                continue;
+            }
+            for preset in [vec![MultishotRead], vec![ReadPool, RecvPool], vec![MultishotRecv, ReadPool]] {
+                if quick && bsize == 1 && preset.len() == 2 && preset[0] == ReadPool {
+                    continue;
+                }
+                let mut cfg = drop_cfg("C08", preset.clone());
+                cfg.sq = 4;
+                cfg.pool = (psize, bsize);
+                cfg.pool_shift = shift;
+                cfg.held_letters = true;
+                cfg.faults = false;
+                cfg.errors = true;
+                cfg.shorts = true;
+                cfg.costs.outcome = 1;
+                cfg.max_items = 3;
+                cfg.allow_cancel_lose = false;
+                cfg.report = vec!["C08"];
+                let name = format!("pool{psize}x{bsize}-shift{shift}-{}", preset.iter().map(|k| format!("{k:?}")).collect::<Vec<_>>().join("+"));
+                v.push(ops_harness(&name, "C08", cfg, bounds(d(8, 10), d(2, 3), 4)));
+            }
+        }
+    }
+    v
+}
+
 fn c10(quick: bool) -> Vec<Harness> {
     use crate::c10::{C10World, read_cases, write_cases};
     let mut v = Vec::new();
@@ -343,6 +394,22 @@ fn c10(quick: bool) -> Vec<Harness> {
         });
     }
     v
+}
+
+fn c12(quick: bool) -> Vec<Harness> {
+    use crate::c12::{C12World, scenarios};
+    let sc = scenarios(quick);
+    let n = sc.len();
+    let sc = std::rc::Rc::new(sc);
+    let (c1, c2) = (sc.clone(), sc.clone());
+    let b = Bounds { depth: 10, dev: 0, d_all: 10, merge: false, shard: (0, 1), cap_s: 0 };
+    vec![Harness {
+        name: "drop-permutations".to_string(),
+        describe: json!({"engine": "seqx", "world": "C12World", "scenarios": n, "drop_orders": "every permutation of the scenario's objects that safe Rust admits", "sample_scenario": format!("{:?}", sc[sc.len() / 3])}),
+        bounds: b,
+        run: Box::new(move |b| seqx::explore(&|| C12World::new(c1.clone()), "C12", b)),
+        replay: Box::new(move |choices| seqx::exec(&|| C12World::new(c2.clone()), "C12", choices)),
+    }]
 }
 
 fn c11(quick: bool) -> Vec<Harness> {
@@ -483,7 +550,7 @@ fn c01(quick: bool) -> Vec<Harness> {
     v
 }
 
-pub const ALL: &[&str] = &["C01", "C02", "C03", "C04", "C05", "C06", "C07", "C09", "C10", "C11"];
+pub const ALL: &[&str] = &["C01", "C02", "C03", "C04", "C05", "C06", "C07", "C08", "C09", "C10", "C11", "C12"];
 
 pub fn assumptions(prop: &str) -> Vec<String> {
     let mut v = vec![
